@@ -34,7 +34,7 @@ Confs == << <<"full", TRUE, Zero, Zero>>, <<"full", FALSE, Q(-7, 2), Zero>>, <<"
             <<"xavier-uniform", FALSE, QI(1), QI(1)>>, <<"xavier-uniform", FALSE, QI(3), QI(5)>>, <<"xavier-uniform", FALSE, QI(30), QI(2)>>,
             <<"xavier-normal", FALSE, QI(1), QI(1)>>, <<"xavier-normal", FALSE, QI(4), QI(12)>>, <<"xavier-normal", FALSE, QI(2), QI(30)>>,
             <<"randu", FALSE, QI(-1), QI(1)>>, <<"randu", FALSE, Zero, Q(1, 1000)>>, <<"randn", FALSE, QI(2), QI(3)>>, <<"randn", FALSE, Zero, Q(1, 100)>> >>
-ShapesQ == << <<>>, <<7>>, <<2, 3>>, <<3, 1, 4>>, <<2, 2, 2, 3>>, <<40, 25>> >>
+ShapesQ == << <<>>, <<7>>, <<2, 3>>, <<3, 1, 4>>, <<2, 2, 2, 3>>, <<40, 25>>, <<128, 130>> >>
 
 Cases == Flatten2([i \in DOMAIN Confs |-> [s \in DOMAIN ShapesQ |->
             LET c == Confs[i] d == Dist(c[1], c[2], c[3], c[4])
